@@ -157,8 +157,8 @@ class RT:
         c = ctx()
         props = self.spec(k).get("prop", {})
         for nm, t in self._inv(k, ns, seq, done):
-            c.prove("loop%d:inv-%s:%s" % (k, kind, nm), t, prop=props.get(nm) if isinstance(props, dict) else props,
-                    kind="inv-" + kind)
+            pr = props(nm) if callable(props) else (props.get(nm) if isinstance(props, dict) else props)
+            c.prove("loop%d:inv-%s:%s" % (k, kind, nm), t, prop=pr, kind="inv-" + kind)
 
     def assume_inv(self, k, ns, seq, done):
         c = ctx()
